@@ -258,6 +258,42 @@ def tie_decode_case(rng):
     return {"k": "decode", "tpl": "job", "cfg": cfg, "refs": [[loc, m, "{{%s}}"]]}
 
 
+def crowded_decode_case(rng):
+    """17-50 job parameters (so 34-100 names are visible everywhere) and references whose nearest visible name is in
+    ANOTHER namespace than the one they are written in: 'Param.X' for a PATH parameter where only 'RawParam.X' is visible
+    (template scope), 'Task.Param.X' for a job parameter, a job parameter's name under 'Session.' ..."""
+    n = rng.choice([17, 20, 33, 40, 50])
+    names = []
+    while len(names) < n:
+        w = rand_ident(rng) + (str(len(names)) if rng.random() < 0.7 else "")
+        if w not in names and _IDENT.match(w):
+            names.append(w)
+    params = [(p, rng.choice(["STRING", "INT", "FLOAT", "PATH", "PATH"])) for p in names]
+    cfg = {"params": params, "envfiles": {k: rand_idents(rng, 1, 2) for k in ("je0", "je1", "se")},
+           "steps": [{"tparams": rand_idents(rng, 1, 3), "files": rand_idents(rng, 1, 2)} for _ in range(2)]}
+    tpl = "env" if rng.random() < 0.15 else "job"
+    locs = sorted(ENV_LOCS if tpl == "env" else JOB_LOCS)
+    refs, used = [], set()
+    for loc in rng.sample(locs, min(len(locs), rng.randint(2, 5))):
+        kind = JOB_LOCS[loc][0]
+        nm, ty = rng.choice(params)
+        r = rng.random()
+        if r < 0.35:
+            paths = [q for q, t in params if t == "PATH"]
+            m = "Param." + (rng.choice(paths) if paths and kind == "template" else nm)
+        elif r < 0.5:
+            m = rng.choice(["Task.Param.", "Task.RawParam.", "Session.", "Env.File.", "Task.File.", "Raw.", "Params."]) + nm
+        elif r < 0.6:
+            m = nm
+        else:
+            m = misspell(rng, cfg, visible_set(cfg, *JOB_LOCS[loc]))
+        if m in used or not _VALID_REF.match(m):
+            continue
+        used.add(m)
+        refs.append([loc, m, rng.choice(["{{%s}}", "{{ %s }}", "pre {{%s}} post"])])
+    return {"k": "decode", "tpl": tpl, "cfg": cfg, "refs": refs}
+
+
 _ERR = re.compile(r"Variable (\S+) does not exist at this location\.(?: Did you mean: (.*)| Did you mean one of: (.*))?\Z")
 
 
@@ -420,6 +456,7 @@ class C20(core.PropBase):
         n_decode = 60000 if thorough else 4000
         decode_cases = [rand_decode_case(rng) for _ in range(n_decode)]
         decode_cases[1:1] = [tie_decode_case(rng) for _ in range(60 if thorough else 12)]
+        decode_cases[1:1] = [crowded_decode_case(rng) for _ in range(600 if thorough else 60)]
         n_decode = len(decode_cases)
         n_rand_pairs = 300000 if thorough else 20000
         n_sets = 300000 if thorough else 20000
